@@ -272,7 +272,8 @@ class Facts:
         for q in missing:
             sig = known[q]
             cands = [f for f in fresh.get(q.rsplit('::', 1)[0], [])
-                     if f.kind == sig['kind'] and f.d.get('sig_inputs') == sig['in'] and f.d.get('sig_output') == sig['out']]
+                     if (f.kind == sig['kind'] or {f.kind, sig['kind']} == {'Fn', 'AssocFn'}) and f.d.get('sig_inputs') == sig['in'] and f.d.get('sig_output') == sig['out']]
+            # (a free function and an inherent method with the same inputs - `self` written out - are the same function)
             others = [m for m in missing if m != q and m.rsplit('::', 1)[0] == q.rsplit('::', 1)[0] and known[m] == sig]
             if len(cands) == 1 and not others:
                 self.aliases[q] = cands[0].qname
